@@ -53,7 +53,7 @@ Theorem C20_request_consumed_exactly : forall e e1 body extra,
   acquire e = Ok (e1, body) -> wf_request e1 -> settled e1 body -> body <> [] ->
   exists b,
     as_bytes SkipNo e = Ok (b, e1) /\
-    req_from_file false conv_id (b ++ extra) = Ok (reparsed e1 body, extra) /\
+    req_from_file false conv_id one_byte (b ++ extra) = Ok (reparsed e1 body, extra) /\
     (extra <> [] -> from_bytes (b ++ extra) = Er e_Value).
 Proof. exact request_consumed_exactly. Qed.
 Print Assumptions C20_request_consumed_exactly.
@@ -69,15 +69,21 @@ Theorem C20_request_reparsed_observations : forall e1 body,
 Proof. exact reparsed_observations. Qed.
 Print Assumptions C20_request_reparsed_observations.
 
-(* text file objects: the same head followed by the body as text t, for any decoder/encoder pair
-   with conv t = body that does not lengthen (utf-8) *)
-Theorem C20_request_text_roundtrip : forall conv e1 body t,
-  wf_request e1 -> settled e1 body -> conv t = Ok body -> (length t <= length body)%nat ->
-  (body = [] -> t = []) ->
-  req_from_file true conv (request_head e1 ++ match body with [] => [] | _ => CRLF ++ CRLF ++ t end)
-  = Ok (reparsed e1 body, []).
+(* text file objects: the same head followed by the body as text t whose encoding (cw c bytes per
+   character, e.g. utf8_width) is exactly the body — followed by anything: the Content-Length is
+   honoured in BYTES, so a text file is consumed exactly too *)
+Theorem C20_request_text_roundtrip : forall conv cw e1 body t extra,
+  wf_request e1 -> settled e1 body -> body <> [] -> conv t = Ok body ->
+  sane_widths cw t -> text_width cw t = length body ->
+  req_from_file true conv cw (request_head e1 ++ CRLF ++ CRLF ++ t ++ extra) = Ok (reparsed e1 body, extra).
 Proof. exact request_text_roundtrip. Qed.
 Print Assumptions C20_request_text_roundtrip.
+
+Theorem C20_request_text_roundtrip_nobody : forall conv cw e1,
+  wf_request e1 -> settled e1 [] -> conv [] = Ok [] ->
+  req_from_file true conv cw (request_head e1) = Ok (reparsed e1 [], []).
+Proof. exact request_text_roundtrip_nobody. Qed.
+Print Assumptions C20_request_text_roundtrip_nobody.
 
 (* as_bytes(skip_body=True) omits only the body; as_bytes(skip_body=k) keeps a body of <= k bytes *)
 Theorem C20_skip_body_omits_only_body : forall e, as_bytes SkipAll e = Ok (request_head e, e).
@@ -126,27 +132,32 @@ Print Assumptions C20_int_of_str.
    a list of code points, for the latin-1 text view of the same bytes (text = true). *)
 Theorem C20_response_roundtrip : forall text r trailing,
   good_status (r_status r) -> good_headers (r_headers r) -> declared_length r ->
-  resp_from_file text conv_id (resp_wire r ++ trailing) = Ok (cl_last r, trailing).
+  resp_from_file text conv_id one_byte (resp_wire r ++ trailing) = Ok (cl_last r, trailing).
 Proof. exact response_wire_roundtrip. Qed.
 Print Assumptions C20_response_roundtrip.
 
-(* text file objects: head, then the body as text t whose encoding is the body *)
-Theorem C20_response_roundtrip_text : forall conv r t,
+(* text file objects: head, then the body as text t whose encoding is the body, then anything *)
+Theorem C20_response_roundtrip_text : forall conv cw r t trailing,
   good_status (r_status r) -> good_headers (r_headers r) -> declared_length r ->
-  conv t = Ok (r_body r) -> (length t <= length (r_body r))%nat ->
-  resp_from_file true conv (wire_head r ++ t) = Ok (cl_last r, []).
+  conv t = Ok (r_body r) -> sane_widths cw t -> text_width cw t = length (r_body r) ->
+  resp_from_file true conv cw (wire_head r ++ t ++ trailing) = Ok (cl_last r, trailing).
 Proof. exact response_wire_roundtrip_text. Qed.
 Print Assumptions C20_response_roundtrip_text.
 
 (* Response.__str__ : str(resp) read back from a text file, or from a binary file when the
    status is ASCII *)
-Theorem C20_response_str_roundtrip : forall text conv r t,
+Theorem C20_response_str_roundtrip : forall text conv cw r t,
   good_status (r_status r) -> good_headers (r_headers r) -> declared_length r ->
   (text = false -> ascii_only (r_status r) = true) ->
-  conv t = Ok (r_body r) -> conv [] = Ok [] -> (length t <= length (r_body r))%nat ->
-  resp_from_file text conv (resp_str r t) = Ok (cl_last r, []).
+  conv t = Ok (r_body r) -> conv [] = Ok [] -> sane_widths cw t -> text_width cw t = length (r_body r) ->
+  resp_from_file text conv cw (resp_str r t) = Ok (cl_last r, []).
 Proof. exact response_str_roundtrip. Qed.
 Print Assumptions C20_response_str_roundtrip.
+
+(* utf-8, the encoding of Request text files, has sane widths *)
+Theorem C20_utf8_widths : forall t, sane_widths utf8_width t.
+Proof. exact utf8_width_sane. Qed.
+Print Assumptions C20_utf8_widths.
 
 (* ======================================================================= sub-requests *)
 
@@ -231,9 +242,9 @@ Ltac chars := apply Forall_forall; intros c Hc; cbn in Hc;
 Ltac notin := intros Hin; cbn in Hin;
               repeat (destruct Hin as [Hin|Hin]; [vm_compute in Hin; discriminate|]); contradiction.
 
-(* POST /app/%C3%A9?q=1&r=%20x HTTP/1.1 with a body made of CRLFCRLF and bytes that are not UTF-8 *)
+(* Post /app/%C3%A9?q=1&r=%20x HTTP/1.1 (a method is a case-sensitive token) with a body made of CRLFCRLF and bytes that are not UTF-8 *)
 Definition ex_env : env :=
-  mkEnv (A "POST") (A "/app") [47; 195; 169] (A "q=1&r=%20x") (A "HTTP/1.1") (A "http") (A "localhost") (A "80")
+  mkEnv (A "Post") (A "/app") [47; 195; 169] (A "q=1&r=%20x") (A "HTTP/1.1") (A "http") (A "localhost") (A "80")
         [(A "HTTP_HOST", A "example.com:8080"); (A "CONTENT_LENGTH", A "6");
          (A "HTTP_X_FOO", A "a: b, c; d  e"); (A "CONTENT_TYPE", A "text/plain; charset=utf-8")]
         [13; 10; 13; 10; 255; 58] true false.
@@ -242,7 +253,7 @@ Example C20_request_hypotheses_hold : wf_request ex_env /\ body_consistent ex_en
 Proof.
   split; [|vm_compute; reflexivity].
   constructor; cbn [ex_env e_method e_proto e_scheme e_hdrs e_script e_path e_qs].
-  - split; [discriminate|]. split; [chars|reflexivity].
+  - split; [discriminate|chars].
   - split; [discriminate|chars].
   - reflexivity.
   - eexists. vm_compute. reflexivity.
@@ -260,10 +271,37 @@ Qed.
 (* and on it the model computes the expected serialisation (sorted headers, CRLF framing) *)
 Example C20_request_example_bytes :
   option_map fst (match as_bytes SkipNo ex_env with Ok p => Some p | Er _ => None end) =
-  Some (A "POST /app/%C3%A9?q=1&r=%20x HTTP/1.1" ++ CRLF ++ A "Content-Length: 6" ++ CRLF ++
+  Some (A "Post /app/%C3%A9?q=1&r=%20x HTTP/1.1" ++ CRLF ++ A "Content-Length: 6" ++ CRLF ++
         A "Content-Type: text/plain; charset=utf-8" ++ CRLF ++ A "Host: example.com:8080" ++ CRLF ++
         A "X-Foo: a: b, c; d  e" ++ CRLF ++ CRLF ++ [13; 10; 13; 10; 255; 58]).
 Proof. vm_compute. reflexivity. Qed.
+
+(* the two recorded findings about the URL, as computations on the model: the wire form carries
+   neither the scheme nor — when the request has no Host header — the host *)
+Definition ex_env_https : env :=
+  mkEnv (A "GET") [] (A "/x") [] (A "HTTP/1.0") (A "https") (A "example.com") (A "443")
+        [(A "HTTP_HOST", A "example.com:443")] [] true false.
+Definition ex_env_nohost : env :=
+  mkEnv (A "GET") [] (A "/x") [] (A "HTTP/1.0") (A "http") (A "example.com") (A "8080") [] [] true false.
+
+Definition url_after_roundtrip (e : env) : option str :=
+  match as_bytes SkipNo e with
+  | Ok (b, _) => match from_bytes b with Ok e' => Some (url e') | Er _ => None end
+  | Er _ => None
+  end.
+
+Theorem C20_request_url_scheme_and_host_not_carried_refuted :
+  url ex_env_https = A "https://example.com/x" /\ url_after_roundtrip ex_env_https = Some (A "http://example.com:443/x") /\
+  url ex_env_nohost = A "http://example.com:8080/x" /\ url_after_roundtrip ex_env_nohost = Some (A "http://localhost/x").
+Proof. repeat split; vm_compute; reflexivity. Qed.
+Print Assumptions C20_request_url_scheme_and_host_not_carried_refuted.
+
+(* a request with an empty path is written with the target "/" and comes back with it *)
+Example C20_empty_path_example :
+  let e := mkEnv (A "GET") [] [] [] (A "HTTP/1.0") (A "http") (A "localhost") (A "80")
+                 [(A "HTTP_HOST", A "localhost:80")] [] true false in
+  url e = A "http://localhost" /\ url_after_roundtrip e = Some (A "http://localhost/").
+Proof. split; vm_compute; reflexivity. Qed.
 
 (* a response with a repeated name, a latin-1 value ending in NBSP, a lower-case content-length in
    the middle and a body of CRLFCRLF + invalid UTF-8 *)
